@@ -291,6 +291,10 @@ class Program(object):
             for k, r in t.records.items():
                 if k not in self.records or len(r['fields']) > len(self.records[k]['fields']):
                     self.records[k] = r
+        # `typedef struct _X {..} X;` : make the record reachable as X too
+        for k in list(self.records):
+            if k.startswith('_') and k[1:] not in self.records:
+                self.records[k[1:]] = self.records[k]
         self.enums = {}
         self.macros = {}
         for t in self.tus.values():
